@@ -258,7 +258,7 @@ def items(tree, path, top=True) -> list[Item]:
     return res
 
 
-def methods(body, path) -> dict:
+def methods(body, path, lenient=False) -> dict:
     """Items of an impl/trait body -> {'fn': {name: (signature tokens, body tree or None)}, 'const': {name: value text}}"""
     fns, consts = {}, {}
     for it in items(body, path, top=False):
@@ -277,6 +277,8 @@ def methods(body, path) -> dict:
             consts[m.group(1)] = m.group(3)
         elif it.kind in ("type",):
             pass
+        elif lenient and it.kind == "macro!":
+            pass                         # inherent impls only (searched for helper fns by name)
         else:
             fail("%s: unexpected %s inside impl/trait body", path, it.kind)
     return {"fn": fns, "const": consts}
@@ -925,6 +927,276 @@ def scan_edge_kind(core_src):
     return kinds, static
 
 
+
+# ------------------------------------------------------------------------------------------------ signatures
+# Row expressions: a row is a list of items (kind, [args]):
+#   ("row",[F])       the TypeRow field F            ("ty",[F])        the Type field F
+#   ("sum_rows",[F])  Type::new_sum(F), F: Vec<TypeRow>   ("sum2",[A,B])  Type::new_sum([A, B]), A, B: TypeRow
+#   ("fn",[F])        Type::new_function(F), F: Signature ("row_at",[F,I]) F.get(I), I a usize field or "#param"
+#   ("sig_in",[F]) / ("sig_out",[F])   rows of the Signature field F;  ("body_in",[F]) / ("body_out",[F])  of F.body()
+FIELD_TYPES = {"TypeRow": "row", "Vec < TypeRow >": "rows", "Type": "ty", "Signature": "sig",
+               "PolyFuncType": "poly", "usize": "nat"}
+
+
+def split_top(tree, sep):
+    """Splits a token tree at top-level `sep`, not inside <..> (generic arguments)."""
+    parts, cur, depth = [], [], 0
+    for t in tree:
+        if t == "<":
+            depth += 1
+        elif t == ">":
+            depth -= 1
+        elif t == ">>":
+            depth -= 2
+        if t == sep and depth == 0:
+            parts.append(cur)
+            cur = []
+        else:
+            cur.append(t)
+    if cur:
+        parts.append(cur)
+    return parts
+
+
+def struct_fields(files, name):
+    found = []
+    for p, its in files.items():
+        for it in its:
+            if it.kind == "struct" and it.header[:1] == [name]:
+                found.append((p, it))
+    p, it = one(found, "struct " + name)
+    if it.body is None:
+        fail("%s: struct %s is not a braced struct", p, name)
+    fields = []
+    for part in split_top(it.body, ","):
+        toks = list(part)
+        while toks and toks[0] == "#":
+            toks = toks[2:]
+        if toks[:1] == ["pub"]:
+            toks = toks[1:]
+            if toks and is_grp(toks[0], "("):
+                toks = toks[1:]
+        if len(toks) < 3 or toks[1] != ":" or not isinstance(toks[0], str):
+            fail("%s: struct %s: unreadable field %s", p, name, flat(part))
+        fields.append((toks[0], flat(toks[2:])))
+    if len({f for f, _ in fields}) != len(fields):
+        fail("%s: struct %s: duplicate field", p, name)
+    return fields
+
+
+class SigScan:
+    def __init__(self, op, fields, helpers):
+        self.op, self.fields, self.helpers = op, dict(fields), helpers
+
+    def field(self, f, want):
+        ty = FIELD_TYPES.get(self.fields.get(f, ""))
+        if ty not in want:
+            fail("%s: field %s has type %r, expected %s", self.op, f, self.fields.get(f), want)
+        return f
+
+    def row_expr(self, tree, env):
+        txt = flat(tree)
+        if txt in ("TypeRow :: new ( )", "type_row ! [ ]"):
+            return []
+        if re.match(r"^\w+$", txt) and txt in env and isinstance(env[txt], list):
+            return env[txt]
+        m = re.match(r"^TypeRow :: from \( (\w+) \)$", txt)
+        if m and isinstance(env.get(m.group(1)), list):
+            return env[m.group(1)]
+        m = re.match(r"^self \. (\w+) \. clone \( \)$", txt)
+        if m:
+            return [("row", [self.field(m.group(1), {"row"})])]
+        m = re.match(r"^vec ! \[ self \. (\w+) \. clone \( \) \]$", txt)
+        if m:
+            return [("ty", [self.field(m.group(1), {"ty"})])]
+        m = re.match(r"^Type :: new_function \( self \. (\w+) \. clone \( \) \)$", txt)
+        if m:
+            return [("fn", [self.field(m.group(1), {"sig"})])]
+        m = re.match(r"^vec ! \[ Type :: new_sum \( self \. (\w+) \. clone \( \) \) \]$", txt)
+        if m:
+            return [("sum_rows", [self.field(m.group(1), {"rows"})])]
+        m = re.match(r'^self \. (\w+) \. get \( self \. (\w+) \) \. expect \( " \) \. clone \( \)$', txt)
+        if m:
+            return [("row_at", [self.field(m.group(1), {"rows"}), self.field(m.group(2), {"nat"})])]
+        m = re.match(r"^self \. (\w+) \( \)$", txt)
+        if m and m.group(1) in self.helpers:
+            return self.helpers[m.group(1)]
+        fail("%s: row expression not understood: %s", self.op, txt)
+
+    def helper(self, sig, body):
+        """TypeRow-valued helper methods (body_input_row, body_output_row, case_input_row, successor_input)."""
+        txt = flat(body)
+        params = re.findall(r"(\w+) : usize", flat(sig))
+        m = re.match(r"^self \. (\w+) \. extend \( self \. (\w+) \. iter \( \) \)$", txt)
+        if m:
+            return [("row", [self.field(m.group(1), {"row"})]), ("row", [self.field(m.group(2), {"row"})])]
+        m = re.match(r"^let sum_type = Type :: new_sum \( \[ self \. (\w+) \. clone \( \) , self \. (\w+) \. clone \( \) \] \) ; "
+                     r"let mut outputs = vec ! \[ sum_type \] ; outputs \. extend_from_slice \( & self \. (\w+) \) ; "
+                     r"outputs \. into \( \)$", txt)
+        if m:
+            return [("sum2", [self.field(m.group(1), {"row"}), self.field(m.group(2), {"row"})]),
+                    ("row", [self.field(m.group(3), {"row"})])]
+        m = re.match(r"^Some \( self \. (\w+) \. get \( (\w+) \) \? \. extend \( self \. (\w+) \. iter \( \) \)(?: ,)? \)$", txt)
+        if m and m.group(2) in params:
+            return [("row_at", [self.field(m.group(1), {"rows"}), "#" + m.group(2)]),
+                    ("row", [self.field(m.group(3), {"row"})])]
+        fail("%s: helper body not understood: %s", self.op, txt)
+
+    def signature(self, body):
+        stmts = split_top(body, ";")
+        if flat(body).endswith(";"):
+            fail("%s: signature body ends with ';'", self.op)
+        lets, tail = stmts[:-1], stmts[-1]
+        env = {}
+        for st in lets:
+            txt = flat(st)
+            m = re.match(r"^let mut (\w+) = self \. (\w+) \. clone \( \)$", txt)
+            if m:
+                env[m.group(1)] = ("clone", m.group(2))
+                continue
+            m = re.match(r"^(\w+) \. to_mut \( \) \. insert \( 0 , Type :: new_sum \( self \. (\w+) \. clone \( \) \) \)$", txt)
+            if m and isinstance(env.get(m.group(1)), tuple) and env[m.group(1)][0] == "clone":
+                env[m.group(1)] = [("sum_rows", [self.field(m.group(2), {"rows"})]),
+                                   ("row", [self.field(env[m.group(1)][1], {"row"})])]
+                continue
+            m = re.match(r"^(\w+) \. input \. to_mut \( \) \. insert \( 0 , Type :: new_function \( self \. (\w+) \. clone \( \) \) \)$", txt)
+            if m and env.get(m.group(1)) == ("clone", m.group(2)):
+                f = self.field(m.group(2), {"sig"})
+                env[m.group(1)] = ("sig", [("fn", [f]), ("sig_in", [f])], [("sig_out", [f])])
+                continue
+            m = re.match(r"^let \[ (\w+) , (\w+) \] = \[ & self \. (\w+) , & self \. (\w+) \] \. map \( \| row \| row \. extend "
+                         r"\( self \. (\w+) \. iter \( \) \) \)$", txt)
+            if m:
+                r = ("row", [self.field(m.group(5), {"row"})])
+                env[m.group(1)] = [("row", [self.field(m.group(3), {"row"})]), r]
+                env[m.group(2)] = [("row", [self.field(m.group(4), {"row"})]), r]
+                continue
+            m = re.match(r"^let (\w+) = Type :: new_sum \( self \. (\w+) \. clone \( \) \)$", txt)
+            if m:
+                env[m.group(1)] = ("item", ("sum_rows", [self.field(m.group(2), {"rows"})]))
+                continue
+            m = re.match(r"^let mut (\w+) = vec ! \[ (\w+) \]$", txt)
+            if m and isinstance(env.get(m.group(2)), tuple) and env[m.group(2)][0] == "item":
+                env[m.group(1)] = [env[m.group(2)][1]]
+                continue
+            m = re.match(r"^(\w+) \. extend_from_slice \( & self \. (\w+) \)$", txt)
+            if m and isinstance(env.get(m.group(1)), list):
+                env[m.group(1)] = env[m.group(1)] + [("row", [self.field(m.group(2), {"row"})])]
+                continue
+            fail("%s: signature statement not understood: %s", self.op, txt)
+        txt = flat(tail)
+        m = re.match(r"^Cow :: Owned \( (\w+) \)$", txt)
+        if m and isinstance(env.get(m.group(1)), tuple) and env[m.group(1)][0] == "sig":
+            return env[m.group(1)][1], env[m.group(1)][2]
+        m = re.match(r"^Cow :: Borrowed \( & self \. (\w+) \)$", txt)
+        if m:
+            f = self.field(m.group(1), {"sig"})
+            return [("sig_in", [f])], [("sig_out", [f])]
+        m = re.match(r"^Cow :: Borrowed \( self \. (\w+) \. body \( \) \)$", txt)
+        if m:
+            f = self.field(m.group(1), {"poly"})
+            return [("body_in", [f])], [("body_out", [f])]
+        if txt == "self . inner_signature ( )":
+            return "inner"
+        # Cow::Owned(Signature::new(X, Y)[.with_extension_delta(self.extension_delta.clone())])
+        if len(tail) == 4 and tail[:3] == ["Cow", "::", "Owned"] and is_grp(tail[3], "("):
+            inner = tail[3][1]
+            if inner[:3] == ["Signature", "::", "new"] and len(inner) >= 4 and is_grp(inner[3], "("):
+                rest = re.sub(r" ?,$", "", flat(inner[4:]))
+                if rest not in ("", ". with_extension_delta ( self . extension_delta . clone ( ) )"):
+                    fail("%s: signature tail not understood: %s", self.op, rest)
+                args = split_top(inner[3][1], ",")
+                if len(args) != 2:
+                    fail("%s: Signature::new with %d arguments", self.op, len(args))
+                return self.row_expr(args[0], env), self.row_expr(args[1], env)
+        fail("%s: signature expression not understood: %s", self.op, txt)
+
+
+def signature_tables(sc, has_sig, dfparent):
+    files, impls = sc["files"], sc["impls"]
+    fields_tab, sigs, inners = [], [], []
+    extra = {}
+    for op in sc["optypes"]:
+        fields = struct_fields(files, op)
+        fields_tab.append((op, [(f, FIELD_TYPES[t]) for f, t in fields if t in FIELD_TYPES]))
+        # helper methods of the inherent impls
+        raw_helpers = {}
+        for p, its in files.items():
+            for it in its:
+                if it.kind == "impl" and flat(it.header) == op:
+                    for name, (sig, body) in methods(it.body, p, lenient=True)["fn"].items():
+                        if name in ("body_input_row", "body_output_row", "case_input_row", "successor_input"):
+                            if name in raw_helpers:
+                                fail("%s: duplicate helper %s", op, name)
+                            raw_helpers[name] = (sig, body)
+        scn = SigScan(op, fields, {})
+        helpers = {name: scn.helper(sig, body) for name, (sig, body) in raw_helpers.items()}
+        scn.helpers = helpers
+        inner = None
+        if op in dfparent:
+            body = impls["DataflowParent"][op][1]["fn"]["inner_signature"][1]
+            inner = scn.signature(body)
+            if inner == "inner":
+                fail("%s: inner_signature refers to itself", op)
+            inners.append((op, inner))
+        if dict(has_sig)[op]:
+            body = impls["DataflowOpTrait"][op][1]["fn"]["signature"][1]
+            sg = scn.signature(body)
+            if sg == "inner":
+                if inner is None:
+                    fail("%s: signature = inner_signature of a non-parent", op)
+                sg = inner
+            sigs.append((op, sg))
+        extra[op] = helpers
+    # Conditional / DataflowBlock helpers used by the children and edge checks
+    for op, h in (("Conditional", "case_input_row"), ("DataflowBlock", "successor_input")):
+        if h not in extra[op]:
+            fail("%s::%s not found", op, h)
+    # BasicBlock::dataflow_input
+    bb = []
+    for p, its in files.items():
+        for it in its:
+            if it.kind == "impl":
+                gen, tr, ty = impl_header(it)
+                if trait_name(tr) == "BasicBlock":
+                    name = strip_path(ty)
+                    ms = methods(it.body, p)["fn"]
+                    m = re.match(r"^& self \. (\w+)$", flat(ms["dataflow_input"][1])) if "dataflow_input" in ms else None
+                    if gen or name not in sc["optypes"] or not m:
+                        fail("%s: impl BasicBlock for %s not understood", p, ty)
+                    f = dict(struct_fields(files, name)).get(m.group(1))
+                    if f != "TypeRow":
+                        fail("%s: %s.%s is not a TypeRow", p, name, m.group(1))
+                    bb.append((name, [("row", [m.group(1)])]))
+    if sorted(n for n, _ in bb) != ["DataflowBlock", "ExitBlock"]:
+        fail("impl BasicBlock: expected exactly DataflowBlock and ExitBlock, got %s", [n for n, _ in bb])
+    # the comparisons of the children / edge checks (pinned)
+    vpath = os.path.join(sc["core_src"], "ops", "validate.rs")
+    with open(vpath, "rb") as f:
+        vtxt = flat(group(tokenize(f.read().decode("utf-8"), vpath), vpath))
+    pins = [
+        "let first_sig = first_optype . dataflow_signature ( ) . unwrap_or_default ( ) ; if & first_sig . output != expected_input {",
+        "let second_sig = second_optype . dataflow_signature ( ) . unwrap_or_default ( ) ; if & second_sig . input != expected_output {",
+        "if self . sum_rows . len ( ) != children . len ( ) {",
+        "let sig = & case_op . inner_signature ( ) ; if sig . input != self . case_input_row ( i ) . unwrap ( ) || sig . output != self . outputs {",
+        "let sig = self . signature ( ) ; if entry_op . inner_signature ( ) . input ( ) != sig . input ( ) {",
+        "if & exit_op . cfg_outputs != sig . output ( ) {",
+        "let target_input = match & edge . target_op { OpType :: DataflowBlock ( dfb ) => dfb . dataflow_input ( ) , "
+        "OpType :: ExitBlock ( exit ) => exit . dataflow_input ( ) , _ => panic ! ( \" ) , } ;",
+        "let source_types = source . successor_input ( edge . source_port . index ( ) ) ; "
+        "if source_types . as_ref ( ) != Some ( target_input ) {",
+    ]
+    for pin in pins:
+        if vtxt.count(pin) != 1:
+            fail("%s: the children / edge checks changed; not found exactly once: %s", vpath, pin)
+    cond_fields = dict(struct_fields(files, "Conditional"))
+    if cond_fields.get("outputs") != "TypeRow" or dict(struct_fields(files, "ExitBlock")).get("cfg_outputs") != "TypeRow":
+        fail("Conditional.outputs / ExitBlock.cfg_outputs are not TypeRows")
+    return {"fields": fields_tab, "sigs": sigs, "inners": inners,
+            "case_input_row": extra["Conditional"]["case_input_row"], "case_output_row": [("row", ["outputs"])],
+            "successor_input": extra["DataflowBlock"]["successor_input"], "block_input": bb}
+
+
 # ------------------------------------------------------------------------------------------------ Coq text
 def q(s):
     if not re.match(r"^[A-Za-z0-9_.]*$", s):
@@ -951,6 +1223,11 @@ def assoc(name, ty, rows, comment):
     return "\n".join(lines)
 
 
+def qitems(items):
+    return "[" + "; ".join("(%s, %s)" % (q(k), "[" + "; ".join('"%s"' % a if re.match(r"^#?\w+$", a) else fail("bad arg %r", a)
+                                                                 for a in args) + "]") for k, args in items) + "]"
+
+
 def scan(repo):
     core = os.path.join(repo, "hugr-core", "src")
     tags, lattice = scan_tag_rs(os.path.join(core, "ops", "tag.rs"))
@@ -961,6 +1238,7 @@ def scan(repo):
     flags, checks, io_tags, exit_tags = flags_tables(sc, tags, dfparent)
     dom_tag, unconnected_ok_tag, unconnected_ok_kinds, linear_extra = scan_hugr_validate(core, tags)
     edge_kinds, static_kinds = scan_edge_kind(core)
+    sigt = signature_tables(sc, has_sig, dfparent)
     for k in unconnected_ok_kinds + linear_extra:
         if k not in edge_kinds:
             fail("hugr/validate.rs: unknown EdgeKind::%s", k)
@@ -972,7 +1250,7 @@ def scan(repo):
             "has_sig": has_sig, "dfparent": dfparent, "flags": flags, "checks": checks, "io_tags": io_tags,
             "exit_tags": exit_tags, "static_input_tag": sc["static_input_tag"], "dom_tag": dom_tag,
             "unconnected_ok_tag": unconnected_ok_tag, "unconnected_ok_kinds": unconnected_ok_kinds,
-            "linear_extra": linear_extra, "edge_kinds": edge_kinds, "static_kinds": static_kinds}
+            "linear_extra": linear_extra, "edge_kinds": edge_kinds, "static_kinds": static_kinds, "sigt": sigt}
 
 
 def render(t) -> str:
@@ -1028,6 +1306,24 @@ def render(t) -> str:
                "   output ports of these kinds must have exactly one link *)\n"
                "Definition rs_unconnected_ok_kinds : list string := %s.\nDefinition rs_linear_out_extra_kinds : list string := %s.\n"
                % (qlist(t["edge_kinds"]), qlist(t["static_kinds"]), qlist(t["unconnected_ok_kinds"]), qlist(t["linear_extra"])))
+    g = t["sigt"]
+    ity = "list (string * list string)"
+    out.append(assoc("rs_fields", "list (string * string)",
+                     [(k, "[" + "; ".join("(%s, %s)" % (q(f), q(ty)) for f, ty in fs) + "]") for k, fs in g["fields"]],
+                     "fields of the operation structs of type TypeRow (row), Vec<TypeRow> (rows), Type (ty), Signature (sig), "
+                     "PolyFuncType (poly), usize (nat)"))
+    out.append(assoc("rs_signature", "(%s * %s)" % (ity, ity), [(k, "(%s, %s)" % (qitems(a), qitems(b))) for k, (a, b) in g["sigs"]],
+                     "DataflowOpTrait::signature as (input row, output row); a row is a concatenation of items:\n"
+                     "   row F | ty F | sum_rows F = Type::new_sum(F) | sum2 A B = Type::new_sum([A, B]) | fn F = Type::new_function(F) |\n"
+                     "   row_at F I = F.get(I) | sig_in F, sig_out F | body_in F, body_out F = rows of F.body()"))
+    out.append(assoc("rs_inner_signature", "(%s * %s)" % (ity, ity),
+                     [(k, "(%s, %s)" % (qitems(a), qitems(b))) for k, (a, b) in g["inners"]],
+                     "DataflowParent::inner_signature"))
+    out.append("(* Conditional::case_input_row(case) and the row compared with the case's output; DataflowBlock::successor_input(successor) *)\n"
+               "Definition rs_case_input_row : %s := %s.\nDefinition rs_case_output_row : %s := %s.\n"
+               "Definition rs_successor_input : %s := %s.\n"
+               % (ity, qitems(g["case_input_row"]), ity, qitems(g["case_output_row"]), ity, qitems(g["successor_input"])))
+    out.append(assoc("rs_block_input", ity, [(k, qitems(v)) for k, v in g["block_input"]], "BasicBlock::dataflow_input"))
     return "\n".join(out)
 
 
